@@ -11,10 +11,19 @@ theorem wf_parts {c : ExportCase} (h : Spec.wfExport c = true) :
     (Spec.isPeer c.path.src = true → Spec.isIbgpRole c.path.src.role = true →
       c.path.src.remoteAsn = c.path.src.localAsn) := by
   simp only [Spec.wfExport, Bool.and_eq_true, Bool.or_eq_true, Bool.not_eq_true', decide_eq_true_eq] at h
-  refine ⟨h.1.1, allWf_of_all h.1.2, ?_⟩
+  refine ⟨h.1.1.1, allWf_of_all h.1.1.2, ?_⟩
   intro hp hr
-  rcases h.2 with h2 | h2
+  rcases h.1.2 with h2 | h2
   · simp [hp, hr] at h2
+  · exact h2
+
+/-- a source session that is neither iBGP nor route-server client has another AS -/
+theorem wf_external {c : ExportCase} (h : Spec.wfExport c = true) (hp : Spec.isPeer c.path.src = true)
+    (hr : c.path.src.role = .ebgp ∨ c.path.src.role = .confed) : c.path.src.remoteAsn ≠ c.path.src.localAsn := by
+  simp only [Spec.wfExport, Bool.and_eq_true, Bool.or_eq_true, Bool.not_eq_true', decide_eq_true_eq,
+    decide_not, Bool.not_eq_eq_eq_not, Bool.not_true, decide_eq_false_iff_not] at h
+  rcases h.2 with h2 | h2
+  · rcases hr with hr | hr <;> simp [hp, hr] at h2
   · exact h2
 
 theorem visible_parts {s : Sess} {p : Path} (h : visible s p = true) :
@@ -275,6 +284,14 @@ theorem badEbgpNexthop_false {c : ExportCase} {out : Attrs} {nh : Option Nh}
     · simp [hpn]
   · simp [hr]
 
+/-! ### route-server clients -/
+
+/-- the clause about route-server clients holds trivially for every other receiver; for an RS client
+    the current `export_attrs` passes the attributes through (finding F09-rs-client-internal-attributes) -/
+theorem badRsInternal_false {c : ExportCase} (out : Attrs) (hr : c.sess.ctx.role ≠ .rsClient) :
+    Spec.badRsInternal c out = false := by
+  simp [Spec.badRsInternal, hr]
+
 /-! ### iBGP -/
 
 theorem ibgp_W {c : ExportCase} {as1 : Attrs} (hw4 : AllWf (mid c.sess c.path as1))
@@ -416,6 +433,59 @@ theorem badReflectCluster_false {c : ExportCase} {out : Attrs} {nh : Option Nh} 
     rw [hc, wordsOf_sort, wordsOf_W 10 hW]
     simp [wordsOfList]
   · simp [hrf]
+
+/-- a route that is not reflected goes through the reflection stage unchanged -/
+theorem badSpuriousReflect_false {c : ExportCase} {out : Attrs} {nh : Option Nh} (hwf : Spec.wfExport c = true)
+    (hv : visible c.sess c.path = true) (hx : xform c.sess c.path = some (out, nh)) :
+    Spec.badSpuriousReflect c (sortByCode out) = false := by
+  simp only [Spec.badSpuriousReflect]
+  by_cases hr : Spec.isIbgpRole c.sess.ctx.role = true
+  · by_cases hrf : Spec.reflected c = true
+    · simp [hrf]
+    · obtain ⟨as1, hp, rfl⟩ := xform_some hx
+      obtain ⟨_, hw, _⟩ := wf_parts hwf
+      have hw4 := mid_wf c.sess c.path (policyStage_wf hp hw)
+      have hd : c.sess.ctx.role = .ibgp ∨ c.sess.ctx.role = .rrClient := by
+        simpa [Spec.isIbgpRole] using hr
+      -- the source is not iBGP-learned
+      have hnl : isIbgpLearned c.path.src = false := by
+        simp only [Spec.reflected, hr, Bool.and_true, Bool.and_eq_true, not_and, Bool.not_eq_true] at hrf
+        cases hk : c.path.src.kind with
+        | locl => simp [isIbgpLearned, Source.isLocal, hk]
+        | kernel => simp [isIbgpLearned, Source.isLocal, hk]
+        | peer =>
+          have hpeer : Spec.isPeer c.path.src = true := by simp [Spec.isPeer, hk]
+          have hnr := hrf hpeer
+          have hrs := (visible_parts hv).2.2
+          simp only [rsIsolationSuppress, Source.isRsClient] at hrs
+          have hne : c.path.src.remoteAsn ≠ c.path.src.localAsn := by
+            apply wf_external hwf hpeer
+            cases hro : c.path.src.role with
+            | ebgp => exact Or.inl rfl
+            | confed => exact Or.inr rfl
+            | ibgp => simp [Spec.isIbgpRole, hro] at hnr
+            | rrClient => simp [Spec.isIbgpRole, hro] at hnr
+            | rsClient =>
+              exfalso
+              rcases hd with h | h <;> simp [hro, h] at hrs
+          simp [isIbgpLearned, hne]
+      have hmid (k : Nat) (hk8 : k ≠ 8) : W k (mid c.sess c.path as1) = W k as1 := by
+        simp only [mid]
+        rw [W_llgrStage_other _ _ _ hk8]
+        simp only [reflectStage, hnl]
+        cases c.sess.cluster <;> simp
+      have h9 : Spec.withCode 9 (sortByCode (exportAttrs c.sess.ctx (mid c.sess c.path as1))) =
+          Spec.withCode 9 c.path.attrs := by
+        rw [withCode_sort]
+        show W 9 _ = W 9 _
+        rw [ibgp_W hw4 hr 9 (by decide) (by decide), hmid 9 (by decide), policyStage_other hp 9 (by decide) (by decide)]
+      have h10 : Spec.withCode 10 (sortByCode (exportAttrs c.sess.ctx (mid c.sess c.path as1))) =
+          Spec.withCode 10 c.path.attrs := by
+        rw [withCode_sort]
+        show W 10 _ = W 10 _
+        rw [ibgp_W hw4 hr 10 (by decide) (by decide), hmid 10 (by decide), policyStage_other hp 10 (by decide) (by decide)]
+      rw [h9, h10]; simp
+  · simp [hr]
 
 /-! ### confederation -/
 
@@ -569,6 +639,14 @@ theorem unknown_mem_roleAttrs {c : ExportCase} {as1 : Attrs} {nh : Option Nh} {a
     cases a with
     | aspath s => simp [Attr.code, canonicalFlags] at hu
     | _ => rfl
+  have hkeep : a ∈ List.filter (fun a =>
+      !(a.code = LOCAL_PREF ∨ a.code = ORIGINATOR_ID ∨ a.code = CLUSTER_LIST ∨ a.code = AIGP))
+      (mid c.sess c.path as1) := by
+    apply List.mem_filter.mpr
+    refine ⟨h4, ?_⟩
+    have h5 := hne 5 (by decide); have h9 := hne 9 (by decide)
+    have h10 := hne 10 (by decide); have h26 := hne 26 (by decide)
+    simp [LOCAL_PREF, ORIGINATOR_ID, CLUSTER_LIST, AIGP, h5, h9, h10, h26]
   simp only [roleAttrs]
   cases c.sess.ctx.role with
   | rsClient => exact h4
@@ -686,7 +764,35 @@ theorem firstFail_ok {l : List (Bool × String)} (h : ∀ x ∈ l, x.1 = false) 
     simp only [Spec.firstFail, Bool.false_eq_true, if_false]
     exact ih (fun y hy => h y (List.mem_cons_of_mem _ hy))
 
-theorem checkExport_exportOne (c : ExportCase) : Spec.checkExport c (exportOne c) = .ok := by
+/-- every clause but the one about RS clients holds on what the model sends, whoever the receiver is -/
+theorem clauses_exportOne {c : ExportCase} {out : Attrs} {nh : Option Nh} (hwf : Spec.wfExport c = true)
+    (hv : visible c.sess c.path = true) (hx : xform c.sess c.path = some (out, nh)) :
+    ∀ x ∈ Spec.exportClauses c nh (sortByCode out), x.2 ≠ "rs-client-internal-attribute-sent" → x.1 = false := by
+  intro x hxm hne
+  simp only [Spec.exportClauses, List.mem_cons, List.mem_nil_iff, or_false] at hxm
+  rcases hxm with rfl | rfl | rfl | rfl | rfl | rfl | rfl | rfl | rfl | rfl | rfl | rfl | rfl | rfl | rfl | rfl | rfl | rfl
+  · exact badEcho_false hv
+  · exact badNonClient_false hwf hv
+  · exact badRsBoundary_false hv
+  · exact badEbgpPath_false hwf hx
+  · exact badEbgpInternal_false hwf hx
+  · exact badEbgpMed_false hwf hx
+  · exact badEbgpNexthop_false hx
+  · exact absurd rfl hne
+  · exact badIbgpLocalPref_false hwf hx
+  · exact badIbgpPath_false hwf hx
+  · exact badIbgpNexthop_false hx
+  · exact badReflectOriginator_false hwf hv hx
+  · exact badReflectCluster_false hwf hv hx
+  · exact badSpuriousReflect_false hwf hv hx
+  · exact badConfedPath_false hwf hx
+  · exact badLlgr_false hwf hx
+  · exact badOpaqueTransitive_false hwf hx
+  · obtain ⟨as1, _, rfl⟩ := xform_some hx
+    exact badOpaqueNonTransitive_false _ _
+
+theorem checkExport_exportOne (c : ExportCase) (hrs : c.sess.ctx.role ≠ .rsClient) :
+    Spec.checkExport c (exportOne c) = .ok := by
   unfold Spec.checkExport
   by_cases hwf : Spec.wfExport c = true
   · simp only [hwf, Bool.not_true, Bool.false_eq_true, if_false]
@@ -695,25 +801,11 @@ theorem checkExport_exportOne (c : ExportCase) : Spec.checkExport c (exportOne c
     · rw [h]
       apply firstFail_ok
       intro x hxm
-      simp only [List.mem_cons, List.mem_nil_iff, or_false] at hxm
-      rcases hxm with rfl | rfl | rfl | rfl | rfl | rfl | rfl | rfl | rfl | rfl | rfl | rfl | rfl | rfl | rfl | rfl
-      · exact badEcho_false hv
-      · exact badNonClient_false hwf hv
-      · exact badRsBoundary_false hv
-      · exact badEbgpPath_false hwf hx
-      · exact badEbgpInternal_false hwf hx
-      · exact badEbgpMed_false hwf hx
-      · exact badEbgpNexthop_false hx
-      · exact badIbgpLocalPref_false hwf hx
-      · exact badIbgpPath_false hwf hx
-      · exact badIbgpNexthop_false hx
-      · exact badReflectOriginator_false hwf hv hx
-      · exact badReflectCluster_false hwf hv hx
-      · exact badConfedPath_false hwf hx
-      · exact badLlgr_false hwf hx
-      · exact badOpaqueTransitive_false hwf hx
-      · obtain ⟨as1, _, rfl⟩ := xform_some hx
-        exact badOpaqueNonTransitive_false _ _
+      by_cases hn : x.2 = "rs-client-internal-attribute-sent"
+      · simp only [Spec.exportClauses, List.mem_cons, List.mem_nil_iff, or_false] at hxm
+        rcases hxm with rfl | rfl | rfl | rfl | rfl | rfl | rfl | rfl | rfl | rfl | rfl | rfl | rfl | rfl | rfl | rfl | rfl | rfl <;>
+          first | exact badRsInternal_false _ hrs | (simp at hn)
+      · exact clauses_exportOne hwf hv hx x hxm hn
   · simp [hwf]
 
 /-! ## F. inbound loop checks -/
@@ -1089,5 +1181,139 @@ theorem opaque_nontransitive_dropped (ctx : Ctx) (as : Attrs) (code f : Nat) (bs
   have := (List.any_eq_false.mp hb) _ h
   simp only [decide_eq_true_eq] at this
   omega
+
+/-! ## G. a route that turns LLGR-stale after it was advertised (`exp2`) -/
+
+def toObs2 : Obs → Obs2
+  | .suppressed => .nothing
+  | .reach p n a => .reach p n a
+  | .other => .other
+
+theorem visible_stale (s : Sess) (p : Path) : visible s (stalePath p) = visible s p := rfl
+theorem policyStage_stale (s : Sess) (p : Path) : policyStage s (stalePath p) = policyStage s p := rfl
+
+theorem xform_stale_isSome (s : Sess) (p : Path) : (xform s (stalePath p)).isSome = (xform s p).isSome := by
+  simp only [xform, policyStage_stale]
+  cases policyStage s p <;> rfl
+
+/-- the second half of `exportTwice` is a fresh export of the stale route: advertised again exactly
+    when it was advertised before -/
+theorem exportTwice_eq (c : ExportCase) :
+    exportTwice c = (exportOne c, toObs2 (exportOne (Spec.staleCase c))) := by
+  have hst : (Spec.staleCase c).path = stalePath c.path := rfl
+  have hss : (Spec.staleCase c).sess = c.sess := rfl
+  have hsome := xform_stale_isSome c.sess c.path
+  unfold exportTwice exportOne processNlriChange
+  simp only [hst, hss, Sess.exp, visible_stale]
+  by_cases hmax : c.sess.max = 1
+  · simp only [hmax, if_true]
+    by_cases hv : visible c.sess c.path = true
+    · have hv' : visible c.sess (stalePath c.path) = true := hv
+      cases hx : xform c.sess c.path with
+      | none =>
+        rw [hx] at hsome
+        have hx' : xform c.sess (stalePath c.path) = none := by
+          cases h : xform c.sess (stalePath c.path) with
+          | none => rfl
+          | some _ => rw [h] at hsome; cases hsome
+        simp [hv, hv', hx, hx', ExportMap.wasSent, ExportMap.empty, obs1Of, obs2Of, toObs2]
+      | some r =>
+        rw [hx] at hsome
+        cases hx' : xform c.sess (stalePath c.path) with
+        | none => rw [hx'] at hsome; cases hsome
+        | some r' => simp [hv, hv', hx, hx', obs1Of, obs2Of, toObs2]
+    · have hv' : ¬ visible c.sess (stalePath c.path) = true := hv
+      simp [hv, hv', ExportMap.wasSent, ExportMap.empty, obs1Of, obs2Of, toObs2]
+  · simp only [hmax, if_false]
+    by_cases hv : visible c.sess c.path = true
+    · have hv' : visible c.sess (stalePath c.path) = true := hv
+      by_cases h0 : c.sess.max = 0
+      · simp [h0, ExportMap.sentPathIds, ExportMap.empty, obs1Of, obs2Of, toObs2]
+      · have htake : ∀ q : Path, List.take c.sess.max [q] = [q] := by
+          intro q
+          cases hm : c.sess.max with
+          | zero => exact absurd hm h0
+          | succ n => simp
+        cases hx : xform c.sess c.path with
+        | none =>
+          rw [hx] at hsome
+          have hx' : xform c.sess (stalePath c.path) = none := by
+            cases h : xform c.sess (stalePath c.path) with
+            | none => rfl
+            | some _ => rw [h] at hsome; cases hsome
+          simp [hv, hv', htake, hx, hx', ExportMap.sentPathIds, ExportMap.empty, obs1Of, obs2Of, toObs2]
+        | some r =>
+          rw [hx] at hsome
+          cases hx' : xform c.sess (stalePath c.path) with
+          | none => rw [hx'] at hsome; cases hsome
+          | some r' =>
+            have hpid : (stalePath c.path).pid = c.path.pid := rfl
+            simp [hv, hv', htake, hx, hx', hpid, hmax, ExportMap.sentPathIds, ExportMap.empty, ExportMap.containsPath,
+                  ExportMap.key, ExportMap.markSent, obs1Of, obs2Of, toObs2]
+    · have hv' : ¬ visible c.sess (stalePath c.path) = true := hv
+      simp [hv, hv', ExportMap.sentPathIds, ExportMap.empty, obs1Of, obs2Of, toObs2]
+
+def isReach : Obs → Bool
+  | .reach _ _ _ => true
+  | _ => false
+
+/-- when `exportOne` advertises -/
+theorem exportOne_isReach (c : ExportCase) :
+    isReach (exportOne c) = (visible c.sess c.path && (xform c.sess c.path).isSome && (c.sess.max != 0)) := by
+  unfold exportOne processNlriChange
+  simp only [Sess.exp]
+  by_cases hmax : c.sess.max = 1
+  · simp only [hmax, if_true]
+    by_cases hv : visible c.sess c.path = true
+    · cases hx : xform c.sess c.path with
+      | none => simp [hv, hx, ExportMap.wasSent, ExportMap.empty, isReach]
+      | some r => simp [hv, hx, isReach]
+    · simp [hv, ExportMap.wasSent, ExportMap.empty, isReach]
+  · simp only [hmax, if_false]
+    by_cases hv : visible c.sess c.path = true
+    · by_cases h0 : c.sess.max = 0
+      · simp [h0, ExportMap.sentPathIds, ExportMap.empty, isReach]
+      · have htake : List.take c.sess.max [c.path] = [c.path] := by
+          cases hm : c.sess.max with
+          | zero => exact absurd hm h0
+          | succ n => simp
+        cases hx : xform c.sess c.path with
+        | none => simp [hv, htake, hx, ExportMap.sentPathIds, ExportMap.empty, isReach]
+        | some r =>
+          simp [hv, htake, hx, h0, ExportMap.sentPathIds, ExportMap.empty, ExportMap.containsPath,
+                ExportMap.key, isReach]
+    · simp [hv, ExportMap.sentPathIds, ExportMap.empty, isReach]
+
+theorem wf_stale (c : ExportCase) : Spec.wfExport (Spec.staleCase c) = Spec.wfExport c := rfl
+
+/-- the reference checker accepts what the model does with a route that turns LLGR-stale -/
+theorem checkExport2_exportTwice (c : ExportCase) (hrs : c.sess.ctx.role ≠ .rsClient) :
+    Spec.checkExport2 c (exportTwice c).1 (exportTwice c).2 = .ok := by
+  rw [exportTwice_eq]
+  simp only [Spec.checkExport2]
+  split
+  · rfl
+  · rw [checkExport_exportOne c hrs]
+    simp only
+    have h2 := checkExport_exportOne (Spec.staleCase c) hrs
+    -- advertised before ⇔ advertised again
+    have hsame : isReach (exportOne (Spec.staleCase c)) = isReach (exportOne c) := by
+      rw [exportOne_isReach, exportOne_isReach]
+      have h1 : visible (Spec.staleCase c).sess (Spec.staleCase c).path = visible c.sess c.path := rfl
+      have h3 : (xform (Spec.staleCase c).sess (Spec.staleCase c).path).isSome = (xform c.sess c.path).isSome :=
+        xform_stale_isSome c.sess c.path
+      have h4 : (Spec.staleCase c).sess.max = c.sess.max := rfl
+      rw [h1, h3, h4]
+    cases ho : exportOne (Spec.staleCase c) with
+    | suppressed =>
+      simp only [toObs2]
+      rw [ho] at hsame
+      cases h1 : exportOne c with
+      | reach pid nh as => rw [h1] at hsame; simp [isReach] at hsame
+      | suppressed => rfl
+      | other => rfl
+    | reach pid nh as => simp only [toObs2]; rw [← ho]; exact h2
+    | other =>
+      rcases exportOne_cases (Spec.staleCase c) with h | ⟨_, _, _, _, _, h⟩ <;> rw [h] at ho <;> cases ho
 
 end Rbgp.Export.Proofs
